@@ -67,6 +67,11 @@ def gen_cases(rng, tier):
                     norb = rng.choice([1, 2]) if tier != 'quick' else 1
                 nn, sz = sector(norb, mode)
                 add(norb, mode, nn, sz, pat, transition=rng.random() < 0.5)
+    # spin-broken wavefunctions with MORE electrons than the rank - 1: the 3- and 4-RDM of FqeDataSet add the lower RDMs back
+    # (delta terms), which vanish identically for N < rank; two orbitals, N = 3 and 4, every sector of that N populated
+    for rank, nn in ((4, 3), (4, 4), (3, 3)) if tier == 'quick' else ((4, 3), (4, 4), (4, 3), (3, 3), (3, 4), (3, 2), (4, 2)):
+        pats = patterns(rank, False)
+        add(2, 'sb', nn, 0, rng.choice(pats), transition=(nn == 4))
     # letters in a different alphabetical order than positions
     for _ in range(4):
         norb = rng.randint(2, 3)
@@ -227,7 +232,9 @@ def run_impl(case, mode):
     if case['kind'] == 'expect':
         ham = c01.build_ham(case['ham'], norb)
         v = complex(ket.expectationValue(ham, brawfn=bra))
-        return {'val': [v.real, v.imag], 'unchanged': fqeio.read_state(ket) == before}
+        import fqe
+        v3 = complex(fqe.expectationValue(ket, ham, bra))          # the module-level entry point is the same operation
+        return {'val': [v.real, v.imag], 'unchanged': fqeio.read_state(ket) == before, 'api_same': v3 == v}
     raise ValueError(case['kind'])
 
 
@@ -295,6 +302,8 @@ def compare(case, got, exp, mode):
                 bad.append('%s %s = %r%+rj, exact %d%+dj' % (case['kind'], 'rdm(str)' if key == 'val' else 'expectationValue', g[0], g[1], e[0], e[1]))
     if case['kind'] == 'expect' and not got.get('unchanged', True):
         bad.append('expectationValue modified the ket')
+    if got.get('api_same') is False:
+        bad.append('fqe.expectationValue(wfn, ops, bra) differs from wfn.expectationValue(ops, bra)')
     return bad
 
 
